@@ -240,6 +240,34 @@ def _work_err(case, msg):
     return [0], [("driver-exception", inp, msg, "the operation sequence runs")], {}, False
 
 
+def record_codes(case):
+    """the record list psd_image._build_record_tree produces for every document after the history
+    (mirror of Edit.Corr.flat_case_v)"""
+    from psd_tools.api.psd_image import _build_record_tree
+    from psd_tools.constants import SectionDivider, Tag
+
+    w, _, _ = ec.run_case(case)
+    if w.dead:
+        return [-9]
+    out = []
+    for i, ob in enumerate(w.objs):
+        if w.kind(i) != ec.KDOC:
+            continue
+        out += [-1, i]
+        recs, _ = _build_record_tree(ob)
+        for r in recs:
+            name = r.tagged_blocks.get_data(Tag.UNICODE_LAYER_NAME, r.name)
+            div = r.tagged_blocks.get_data(Tag.SECTION_DIVIDER_SETTING, None)
+            kind = getattr(div, "kind", None)
+            if kind == SectionDivider.BOUNDING_SECTION_DIVIDER:
+                out += [1]
+            elif kind in (SectionDivider.OPEN_FOLDER, SectionDivider.CLOSED_FOLDER):
+                out += [2, int(name[1:])]
+            else:
+                out += [3, int(name[1:])]
+    return out
+
+
 def _pwork(desc):
     fails = []
     persistence_case(lambda kind, inp, obs, exp: fails.append((kind, inp, obs, exp)), desc)
@@ -340,6 +368,10 @@ def run():
     bad = ck.correspond("edit_histories", ec.digest_fn(), ec.IMPORTS, cc, ec.case_lit, chunk=600)
     for i in bad[:3]:
         ck.notes.append(ec.explain_mismatch(ck, cases[i], "c09_%d" % i)[:1500])
+    # the record list written for the tree (ties Edit/Persist.v flat_l to _build_record_tree)
+    rc = [c for j, c in enumerate(cases) if j % (3 if ck.tier == "thorough" else 8) == 0]
+    rcodes = ec.parallel_map(record_codes, rc)
+    ck.correspond("record_list", "flat_case_v %s" % ec.cfg_lit(), ec.IMPORTS, list(zip(rc, rcodes)), ec.case_lit, chunk=600)
     # persistence
     descs = gen_persistence(ck)
     pres = ec.parallel_map(_pwork, descs, chunk=5)
